@@ -1,5 +1,6 @@
 import CalVerif.Prim.Wire
 import CalVerif.Model.Geometry
+import CalVerif.Model.GeometryXls
 import CalVerif.Spec.Geometry
 /-! Driver for C17 (merged regions and tables). One request line → one reply line.
 
@@ -11,10 +12,15 @@ import CalVerif.Spec.Geometry
     rc <mode> <hex>                           → ok r,c | err:<tag> | panic
     xlsmc <hex>                               → ok <rects> | panic
     xlssheet <typ>:<hex> …                    → ok <rects> | panic
+    xlsbook <name> <typ>:<hex> … | <name> …   → worksheet_merge_cells(name) ;; … ## worksheet_merge_cells_at(0..=n) ;; …
     regions <mode> <events…>                  → ok <rects> | err:<tag> | panic
     wmc <mode> <events…>                      → ok <rects> | panic
     mregions <mode> S <name> <path> <events…> | S … → ok name,path,rect;… | …
     tables <mode> S <name> <path> | … || P <path> <events…> | P … → ok name,sheet,cols,rect;…
+    sheetsview <mode> S <name> <path> <events…> | …  → merged_regions ## by_sheet ;; … ## worksheet_merge_cells(name) ;; …
+                                                 ## worksheet_merge_cells_at(i) ;; … ## …_at(len)
+    tablesview <mode> S <name> <path> <cells> | … || P <path> <events…> | … || N <name> …
+                                              → entries ## table_names ## table_names_in_sheet ;; … ## table_by_name ;; …
     tdata <sr> <sc> <er> <ec> <r:c:v,…|->     → S=… E=… ROWS=… | panic
     render <sr> <sc> <er> <ec> <0|1>          → hex of renderRef / renderRef2
     encmc <rects|->                           → hex of encodeMergedCells
@@ -128,6 +134,42 @@ def handle (line : String) : String :=
     match parsed with
     | some rs => showRes showRects (sheetMergeCells rs)
     | none => "bad-request"
+  | "xlsbook" :: rest =>
+    -- sheets in workbook order: `<name hex> <typ>:<hex> …` separated by `|`; the map is filled as the sheet loop does
+    let parseRec : String → Option (Nat × Bytes) := fun w =>
+      match w.splitOn ":" with
+      | [t, h] => match t.toNat?, Wire.bytesOfHex h with
+        | some t, some b => some (t, b)
+        | _, _ => none
+      | _ => none
+    let sheets : Option (List (Bytes × List (Nat × Bytes))) :=
+      ((splitWords "|" rest).filter (· ≠ [])).mapM fun ws =>
+        match ws with
+        | n :: recs =>
+          match Wire.bytesOfHex n, recs.mapM parseRec with
+          | some n, some rs => some (n, rs)
+          | _, _ => none
+        | [] => none
+    match sheets with
+    | some sheets =>
+      let filled := sheets.foldl (fun (acc : Res (List (Bytes × List Rect))) s =>
+        match acc with
+        | .ok m => match sheetMergeCells s.2 with
+          | .ok ds => .ok (mapInsert m s.1 ds)
+          | .err e => .err e | .panic e => .panic e | .outOfFuel => .outOfFuel
+        | other => other) (.ok [])
+      match filled with
+      | .ok m =>
+        let names := sheets.map (·.1)
+        let showOpt := fun (o : Option (List Rect)) => match o with
+          | none => "none"
+          | some l => "ok " ++ showRects l
+        let byName := sheets.map fun s => showOpt (xlsWorksheetMergeCells m s.1)
+        let at_ := (List.range (sheets.length + 1)).map fun i =>
+          showOpt (worksheetMergeCellsAt names (xlsWorksheetMergeCells m) i)
+        " ;; ".intercalate byName ++ " ## " ++ " ;; ".intercalate at_
+      | r => showRes (fun _ => "") r
+    | none => "bad-request"
   | "regions" :: m :: evs =>
     match parseMode m, parseEvs evs with
     | some m, some e => showRes showRects (regionsOfSheet m e)
@@ -162,6 +204,67 @@ def handle (line : String) : String :=
         showRes (fun l => if l.isEmpty then "-" else ";".intercalate (l.map showEntry))
           (readTableMetadata m parts sheets)
       | _, _ => "bad-request"
+    | _, _ => "bad-request"
+  | "sheetsview" :: m :: rest =>
+    match parseMode m, ((splitWords "|" rest).filter (· ≠ [])).mapM parseSheetPart with
+    | some m, some sheets =>
+      let showRegs := fun (l : List (Bytes × Bytes × Rect)) => if l.isEmpty then "-" else
+        ";".intercalate (l.map fun (n, p, d) => s!"{hx n},{hx p},{showRect d}")
+      let all := mergedRegions m sheets
+      let bySheet := match all with
+        | .ok l => sheets.map fun s => showRegs (mergedRegionsBySheet l s.name)
+        | _ => sheets.map fun _ => "-"
+      let showOpt := fun (o : Option (Res (List Rect))) => match o with
+        | none => "none"
+        | some r => showRes showRects r
+      let byName := worksheetMergeCellsByName m sheets
+      let wmc := sheets.map fun s => showOpt (byName s.name)
+      let names := sheets.map (·.name)
+      let wmcAt := (List.range sheets.length).map fun i => showOpt (worksheetMergeCellsAt names byName i)
+      let unknown := showOpt (worksheetMergeCellsAt names byName sheets.length)
+      " ## ".intercalate [showRes showRegs all, " ;; ".intercalate bySheet, " ;; ".intercalate wmc,
+        " ;; ".intercalate wmcAt, unknown]
+    | _, _ => "bad-request"
+  | "tablesview" :: m :: rest =>
+    match parseMode m, splitWords "||" rest with
+    | some m, [sh, ps, ns] =>
+      let sheets := ((splitWords "|" sh).filter (· ≠ [])).mapM fun ws =>
+        match ws with
+        | ["S", n, p, cells] => match Wire.bytesOfHex n, Wire.bytesOfHex p, parseCells cells with
+          | some n, some p, some c => some (n, p, c)
+          | _, _, _ => none
+        | _ => none
+      let parts := ((splitWords "|" ps).filter (· ≠ [])).mapM fun ws =>
+        match ws with
+        | "P" :: p :: evs => match Wire.bytesOfHex p, parseEvs evs with
+          | some p, some e => some (p, e)
+          | _, _ => none
+        | _ => none
+      let lookups := match ns with
+        | "N" :: l => l.mapM Wire.bytesOfHex
+        | _ => none
+      match sheets, parts, lookups with
+      | some sheets, some parts, some lookups =>
+        match readTableMetadata m parts (sheets.map fun s => (s.1, s.2.1)) with
+        | .ok ts =>
+          let sheetRange : Bytes → Res (Range.Rng Nat) := fun name =>
+            match sheets.find? (fun s => s.1 = name) with
+            | some s => Range.fromSparse s.2.2
+            | none => .err "WorksheetNotFound"
+          let showNames := fun (l : List Bytes) => if l.isEmpty then "-" else ";".intercalate (l.map hx)
+          let inSheet := sheets.map fun s => showNames (tableNamesInSheet ts s.1)
+          let tabs := lookups.map fun n =>
+            match tableByName ts sheetRange n with
+            | .ok t =>
+              let cols := if t.columns.isEmpty then "." else ":".intercalate (t.columns.map hx)
+              s!"{hx t.name},{hx t.sheetName},{cols} | {dumpRange t.data} | {dumpRange t.toRange}"
+            | .err e => "err:" ++ e
+            | .panic _ => "panic"
+            | .outOfFuel => "fuel"
+          " ## ".intercalate ["ok " ++ (if ts.isEmpty then "-" else ";".intercalate (ts.map showEntry)),
+            showNames (tableNames ts), " ;; ".intercalate inSheet, " ;; ".intercalate tabs]
+        | r => showRes (fun _ => "") r
+      | _, _, _ => "bad-request"
     | _, _ => "bad-request"
   | ["tdata", a, b, c, d, cells] =>
     match [a, b, c, d].mapM String.toNat?, parseCells cells with
